@@ -360,4 +360,155 @@ theorem dsop_conserves (o : SOp) (b : BSock) :
   unfold dsop
   split <;> exact this
 
+/-! ### the read loop over recv; Python-int sizes -/
+
+theorem drain_ok (cfg : Cfg) (hrs : 0 < cfg.recvsize) (size : Nat) (hs : 0 < size) :
+    ∀ (fuel : Nat) (st : St), measure st.script + st.view.length + 1 ≤ fuel →
+      (drain cfg size fuel st).1 = st.view ∧ (drain cfg size fuel st).2.view = [] := by
+  intro fuel
+  induction fuel with
+  | zero => intro st h; omega
+  | succ fuel ih =>
+    intro st h
+    rcases recv_ok cfg hrs size st with ⟨a, b, c⟩ | ⟨v, a, b, _, d, e⟩
+    · cases hq : recv cfg size st with
+      | mk r st' =>
+        rw [hq] at a b c
+        simp only at a b c
+        subst a
+        simp only [drain, hq]
+        have := ih st' (by rw [b]; omega)
+        rw [b] at this
+        exact this
+    · cases hq : recv cfg size st with
+      | mk r st' =>
+        rw [hq] at a b e
+        simp only at a b e
+        subst a
+        cases v with
+        | nil =>
+          have hv := d hs rfl
+          simp only [drain, hq]
+          simp only [List.nil_append] at b
+          exact ⟨hv.symm, by rw [b, hv]⟩
+        | cons x v =>
+          simp only [drain, hq]
+          have hl : st.view.length = (x :: v).length + st'.view.length := by
+            rw [← b]; simp; omega
+          have := ih st' (by simp only [List.length_cons] at hl; omega)
+          refine ⟨?_, this.2⟩
+          rw [this.1]
+          exact b
+
+theorem recvSizeLoopI_ofNat (rs n : Nat) : ∀ (fuel : Nat) (acc : Bytes) (total : Nat) (nxt : Bytes)
+    (script : List Ev),
+    recvSizeLoopI rs (n : Int) fuel acc total nxt script = recvSizeLoop rs n fuel acc total nxt script := by
+  intro fuel
+  induction fuel with
+  | zero => intro acc total nxt script; rfl
+  | succ fuel ih =>
+    intro acc total nxt script
+    simp only [recvSizeLoopI, recvSizeLoop, pyDropLast, pyLast]
+    by_cases hn : nxt = []
+    · simp [hn]
+    · simp only [hn, ↓reduceIte]
+      by_cases hge : total + nxt.length ≥ n
+      · have hge' : ((total + nxt.length : Nat) : Int) ≥ (n : Int) := by omega
+        have hx : (((total + nxt.length : Nat) : Int) - (n : Int)).toNat = total + nxt.length - n := by omega
+        simp only [hge, hge', ↓reduceIte, hx]
+      · have hge' : ¬ ((total + nxt.length : Nat) : Int) ≥ (n : Int) := by omega
+        simp only [hge, hge', ↓reduceIte]
+        cases sockRecv rs script with
+        | timeout r => rfl
+        | data d r => exact ih _ _ _ _
+
+/-- a non-positive size is met by the first non-empty `nxt`: nothing is returned, all of `nxt` stays buffered -/
+theorem recvSizeLoopI_nonpos (rs : Nat) (size : Int) (hs : size ≤ 0) (fuel : Nat) (acc : Bytes) (total : Nat)
+    (nxt : Bytes) (script : List Ev) :
+    recvSizeLoopI rs size (fuel + 1) acc total nxt script
+      = recvSizeLoopI rs 0 (fuel + 1) acc total nxt script := by
+  simp only [recvSizeLoopI, pyDropLast, pyLast]
+  by_cases hn : nxt = []
+  · simp [hn]
+  · have hpos : 0 < nxt.length := List.length_pos_iff.mpr hn
+    have h1 : ((total + nxt.length : Nat) : Int) ≥ size := by omega
+    have h0 : ((total + nxt.length : Nat) : Int) ≥ 0 := by omega
+    have e1 : nxt.length - (((total + nxt.length : Nat) : Int) - size).toNat = 0 := by omega
+    have e0 : nxt.length - (((total + nxt.length : Nat) : Int) - 0).toNat = 0 := by omega
+    have n1 : (((total + nxt.length : Nat) : Int) - size).toNat ≠ 0 := by omega
+    have n0 : (((total + nxt.length : Nat) : Int) - 0).toNat ≠ 0 := by omega
+    simp only [hn, ↓reduceIte, h1, h0, n1, n0, ne_eq, not_false_eq_true, e1, e0]
+
+/-- `recv_size(s)` with `s < 0` behaves exactly like `recv_size(0)` -/
+theorem recvSizeI_neg (cfg : Cfg) (size : Int) (hs : size ≤ 0) (st : St) :
+    recvSizeI cfg size st = recvSize cfg 0 st := by
+  have key : ∀ fuel acc total nxt script,
+      recvSizeLoopI cfg.recvsize size (fuel + 1) acc total nxt script
+        = recvSizeLoop cfg.recvsize 0 (fuel + 1) acc total nxt script := by
+    intro fuel acc total nxt script
+    rw [recvSizeLoopI_nonpos cfg.recvsize size hs]
+    exact recvSizeLoopI_ofNat cfg.recvsize 0 _ _ _ _ _
+  unfold recvSizeI recvSize
+  split
+  · exact key _ _ _ _ _
+  · cases sockRecv cfg.recvsize st.script with
+    | timeout r => rfl
+    | data d r => exact key _ _ _ _ _
+
+theorem recvSizeI_ofNat (cfg : Cfg) (n : Nat) (st : St) : recvSizeI cfg (n : Int) st = recvSize cfg n st := by
+  unfold recvSizeI recvSize
+  split
+  · exact recvSizeLoopI_ofNat _ _ _ _ _ _ _
+  · cases sockRecv cfg.recvsize st.script with
+    | timeout r => rfl
+    | data d r => exact recvSizeLoopI_ofNat _ _ _ _ _ _ _
+
+/-- the model's clamping of a negative size prefix to 0 (`parseSize`) loses nothing -/
+theorem readNsI_eq (cfg : Cfg) (maxsize window : Nat) (st : St) :
+    readNsI cfg maxsize window st = readNsWith cfg maxsize window st := by
+  unfold readNsI readNsWith
+  cases hq : recvUntil cfg [colon] window false st with
+  | mk r st1 =>
+    cases r with
+    | ok prefix_ =>
+      simp only [parseSize]
+      cases hp : parsePyInt prefix_ with
+      | none => simp
+      | some size =>
+        simp only [Option.map_some]
+        by_cases hneg : size < 0
+        · have h1 : ¬ size > (maxsize : Int) := by omega
+          have h2 : ¬ size.toNat > maxsize := by omega
+          have h3 : size.toNat = 0 := by omega
+          simp only [h1, h2, ↓reduceIte]
+          rw [recvSizeI_neg cfg size (by omega), h3]
+          rfl
+        · have hz : size = (size.toNat : Int) := by omega
+          by_cases hgt : size > (maxsize : Int)
+          · have h2 : size.toNat > maxsize := by omega
+            simp [hgt, h2]
+          · have h2 : ¬ size.toNat > maxsize := by omega
+            simp only [hgt, h2, ↓reduceIte]
+            have hI := recvSizeI_ofNat cfg size.toNat st1
+            rw [← hz] at hI
+            rw [hI]
+            rfl
+    | closed => rfl
+    | tooLong => rfl
+    | timeout => rfl
+    | fuel => rfl
+
+theorem NsSock.readNsI_eq (cfg : Cfg) (ns : NsSock) (arg : Option Nat) (st : St) :
+    ns.readNsI cfg arg st = ns.readNs cfg arg st := by
+  cases arg <;> simp [NsSock.readNsI, NsSock.readNs, C12.readNsI_eq]
+
+theorem NsSock.readNsManyI_eq (cfg : Cfg) (ns : NsSock) (arg : Option Nat) : ∀ (k : Nat) (st : St),
+    NsSock.readNsManyI cfg ns arg k st = NsSock.readNsMany cfg ns arg k st := by
+  intro k
+  induction k with
+  | zero => intro st; rfl
+  | succ k ih =>
+    intro st
+    simp only [NsSock.readNsManyI, NsSock.readNsMany, NsSock.readNsI_eq, ih]
+
 end C12
